@@ -24,14 +24,18 @@ RULE = ("one API call {get_defaults, parse_object(dict|Namespace), parse_string,
         "first appearance, objects of the family alive before the calls first) is reported; argument types also Tuple[Base,int], "
         "Tuple[Tuple[Base,int],str], Tuple[Tuple[Tuple[int,Base],List[Base]],int] (specs up to three tuple levels deep), specs with "
         "dict_kwargs; validate and dump (twice) run on the configuration before the two instantiate calls and a deep identity-aware "
-        "snapshot of it is compared; non-trivial = at least 2 specs. Plus, exhaustively, the 56 'bracket' cases: entry point "
+        "snapshot of it is compared; non-trivial = at least 2 specs. get_defaults cases also declare child arguments with a "
+        "dotted dest below a dict-valued argument (--k {..} then --k.hi). Plus, exhaustively, the 61 'bracket' cases: entry point "
         "{parse_args with --cfg file, get_defaults / format_help / print_help / parse_args with default_config_files, List[int] list "
-        "file (enable_path), parse_env} x directory flavour {plain, symlink, relative, both} x {succeeds, fails midway} on parsers "
-        "that also declare untyped optionals and positionals set by the file: globals, the argv list / environ dict, action.default "
+        "file (enable_path), parse_env, and file-less get_defaults / parse_args / parse_object / parse_string / dump(skip_default) / "
+        "validate} x directory flavour {plain, symlink, relative, both} x {succeeds, fails midway} on parsers that also declare "
+        "untyped optionals and positionals set by the file and a mapping default (the caller's own dict) with a child argument below it: globals, the argv list / environ dict, action.default "
         "of every declared action and get_defaults() without default config files before vs after. The expected objects of an "
         "'instantiate twice' case are computed by the harness from the configuration given, the parser defaults and the class "
         "signatures (table SIG, checked against tie/impl/c08_classes.py), NOT from the parser's output; lazy_instance defaults also "
-        "on Any-typed hints (argument type Any, class Holder)")
+        "on Any-typed hints (argument type Any, class Holder); argument type Dict[str,Base]; two-step histories: a hand-written "
+        "partial configuration (specs as Namespace objects, class by name, inside lists/dicts) and the result of a parse with "
+        "defaults=False are handed as cfg_base= / namespace= to a second parse and snapshotted before/after")
 TRUSTED = [
     "Coq 8.16.1 kernel + vm_compute",
     "tie/impl/c08_inst.py + tie/impl/c08_classes.py (walk the built object trees, number identities by first appearance)",
@@ -42,7 +46,9 @@ TRUSTED = [
 ]
 ASSUMPTIONS = [
     "strings are canonical non-negative decimals or plain words (never YAML containers/null/bool spellings); dict keys are plain words",
-    "declared defaults conform to their type (or are None); no config files, env parsing, links, subcommands, groups or meta keys",
+    "heap model: declared defaults conform to their type (or are None); no config files, env parsing, links, subcommands, groups or "
+    "meta keys; dotted dests (a child below a dict-valued argument) only in get_defaults cases — the other operations of the heap "
+    "model look keys up flat",
     "yaml/json loading of a document is external: the model is handed the loaded object graph (fresh objects)",
     "exception classes are not compared; user-defined objects, threads and C-level state are outside the model",
 ]
@@ -67,7 +73,10 @@ META = {
         "the content it had, under the guard `no mutable container below a tuple; parse_object given a dict without nested "
         "containers`), C08_brackets_restore (no guard: cwd, argparse.Namespace, the seven parser ContextVars, current_path_dir, "
         "sub_defaults, os.environ are as before after every call), C08_region_without_finally_leaks, C08_defaults_untouched "
-        "(get_defaults returns only freshly allocated containers). The unguarded statement is false on the pinned tree: "
+        "(get_defaults returns only freshly allocated containers; get_defaults assigns through dotted dests - a child argument "
+        "declared below a mapping-valued one - into the copy of the parent's default: set_path, inside C08_fixed_frame / "
+        "C08_fixed_defaults_untouched; C08_get_defaults_late_copy_refuted: copying once at the end writes into the declared "
+        "dict). The unguarded statement is false on the pinned tree: "
         "C08_parse_object_mutates_refuted, C08_parse_object_failure_mutates_refuted, C08_dump_tuple_refuted, "
         "C08_get_defaults_shares_refuted (two findings, fixed in /repo since). For the tree with the two fix patches the same model with "
         "recreate_branches rebuilding tuples and parse_object copying its argument satisfies the statement with NO guard: "
